@@ -4,7 +4,7 @@ CONSTANTS
   SelfEpoch = 5
   Peers = {"p1", "p2", "p3"}
   Origins = {"p1", "x", "n1"}
-  Ids = {"u1", "u2", "u3"}
+  Ids = {"u1", "u2"}
   ConnSets <- CS_small
   MaxSeq = 2
   MaxSteps = 100000
